@@ -2,7 +2,7 @@ from checks.generic import standard
 
 def run(ctx):
     return standard(ctx,
-        props=[("Props.C01", ["c01_sound", "c01_sufficient_iff", "c01_password_only_refused", "c01_password_session_401",
+        props=[("Props.C01", ["c01_sound", "c01_sealed_refuses_everything", "c01_forwarding_headers_ignored", "c01_ip_certificate_needs_peer_inside", "c01_sufficient_iff", "c01_password_only_refused", "c01_password_session_401",
                               "c01_everything_else_refused", "c01_refused_is_error", "c01_complete_session",
                               "c01_complete_password", "c01_complete_cert", "c01_strict_refuted", "c01_old_refuted"])],
         harness=("TestVerif_C01", ["kmd/common.go", "kmd/creds.go", "kmd/consts.go", "kmd/c01.go"]),
